@@ -323,3 +323,26 @@ func withOriginsAsPlain(c Case) (Case, int) {
 	}
 	return n, k
 }
+
+// readBack builds a script of its own that does nothing but read, through balance() origins,
+// the (account, asset) pairs the case's script draws from, and publish them as transaction
+// metadata: whatever the case's script does with them, a balance asked for is the ledger's.
+func readBack(c Case) (Case, map[string]string) {
+	r := newResolver(c)
+	pairs := r.sourcePairs()
+	if len(pairs) == 0 {
+		return c, nil
+	}
+	n := c
+	n.Prog = gen.Program{}
+	n.In = c.In.Clone()
+	n.In.Vars = map[string]string{}
+	want := map[string]string{}
+	for i, p := range pairs {
+		name := fmt.Sprintf("zz_rb%d", i)
+		n.Prog.Vars = append(n.Prog.Vars, gen.VarDecl{Type: "monetary", Name: name, Fn: "balance", Args: []gen.Expr{*gen.Acc(p.acc), *gen.Asset(p.asset)}})
+		n.Prog.Stmts = append(n.Prog.Stmts, gen.Stmt{K: "call", Fn: "set_tx_meta", Args: []gen.Expr{*gen.Str("zz_probe_" + name), *gen.Var(name)}})
+		want["zz_probe_"+name] = p.asset + " " + r.truth(p).String()
+	}
+	return n, want
+}
